@@ -54,6 +54,13 @@ def Ad.update {σ : Type} (body : Int → Nat → σ → Option σ) (a : Ad σ) 
   else
     some { clock := a.clock.update accepted (arTag accepted) [], num := a.num }
 
+/-- `_reset_adaptation` (`Chain.reset_proposals()`, `reset_after_swap`): the clock restarts at the
+    current proposal step (`start_step ← max(nsteps, 1)`, `PropSt.reset`: the window, and the
+    Sivia–Skilling count `n_iter`, are measured from there) and every adapted quantity goes back
+    to the stored initial value `init` (widths / covariance, `n_accepted = 0`, `log λ`, mean,
+    unit covariance, `κ`). -/
+def Ad.reset {σ : Type} (init : σ) (a : Ad σ) : Ad σ := { clock := a.clock.reset, num := init }
+
 /-- A whole history: `body i` is the `_update` body fed with the chain's record `i`
     (the only thing `update(chain)` reads), `acc i` its accepted flag. -/
 def Ad.run {σ ι : Type} (body : ι → Int → Nat → σ → Option σ) (acc : ι → Bool) :
